@@ -5,7 +5,7 @@ import json, glob, os, re
 ROOT='/verif'
 rows=[]
 def keyf(name):
-    m=re.match(r'C(\d+)([bc]?)-(\d+)(o?)',name)
+    m=re.match(r'C(\d+)([b-z]?)-(\d+)(o?)',name)
     return (int(m.group(1)), m.group(2), int(m.group(3)), m.group(4))
 for d in sorted((os.path.basename(x) for x in glob.glob(f'{ROOT}/seeded/C*')), key=keyf):
     m=json.load(open(f'{ROOT}/seeded/{d}/meta.json'))
